@@ -69,8 +69,11 @@ def storage_removal_scenario(chk, xvc, name, rng):
     cargs = rh.Runner.cfg_args(None, cfg)
     A = Sandbox(base, 'A', xvc); A.init()
     e = rng.choice(['txt', 'bin', ''])
-    nm = lambda s: s + ('.' + e if e else '')
-    a, b, c = nm('a'), nm('d/b'), nm('c')
+    # identical content under DIFFERENT extensions shares the digest directory but not the object (`<digest>/0.<ext>`):
+    # a third of the scenarios give every path its own extension
+    exts = [e, e, e] if rng.random() < 0.65 else rng.sample(['txt', 'bin', 'dat', ''], 3)
+    nm = lambda s, k: s + ('.' + exts[k] if exts[k] else '')
+    a, b, c = nm('a', 0), nm('d/b', 1), nm('c', 2)
     X, Y, Z = [bytes(f'{t}-{name}-{rng.randint(0, 999)}\n', 'ascii') + (b'\x00' if rng.random() < 0.3 else b'') for t in 'XYZ']
     lines.append('\t'.join(['cfg', str(cfg['algo']), cfg['method'], cfg['tob']])); obs.append(None)
     stamps = {'k': 0, 'mine': set()}
